@@ -244,8 +244,14 @@ impl Prop for C09 {
             }
             h2f.push(json!({"pattern": "random", "len": len, "seed": ctx.seed}));
         }
-        for len in [1000usize, 4096, 65536] {
-            for pat in ["zero", "counter", "random"] { h2f.push(json!({"pattern": pat, "len": len, "seed": ctx.seed})); }
+        // (around the 8 KiB, 64 KiB and 128 KiB buffer sizes a streaming reader may use)
+        for len in [1000usize, 4096, 8191, 8192, 8193, 65535, 65536, 65537, 131072, 131073] {
+            for pat in ["zero", "counter", "random"] {
+                if len > 8193 && pat != "counter" && ctx.tier == Tier::Quick {
+                    continue;
+                }
+                h2f.push(json!({"pattern": pat, "len": len, "seed": ctx.seed}));
+            }
         }
         if ctx.tier == Tier::Thorough {
             for len in [136 * 10 - 1, 136 * 10, 136 * 10 + 1, 1 << 20] { h2f.push(json!({"pattern": "counter", "len": len, "seed": ctx.seed})); }
